@@ -376,7 +376,18 @@ def main(argv=None):
     if infra:
         print(f'infrastructure error in {len(infra)} scenario(s), first:\n{infra[0]["infra"]}\n'
               f'scenario: {json.dumps(infra[0]["scn"], default=str)[:2000]}', file=sys.stderr)
-        return 2
+        rest = [s for s in summaries if not s['infra']]
+        changed = bool(broken) or any(s['div'] or [v for v in s['viol'] if not match_known(known, v)] for s in rest)
+        if not changed:
+            return 2
+        # The tree under test is not the one the machinery was calibrated on: a proof obligation, the correspondence
+        # or the property itself is broken on OTHER evidence of this very run.  A harness that is not total on what
+        # the changed code answers (rounds nine and ten: an oracle indexing an empty result list, abs(None)) is then a
+        # consequence of the change and no reason to end with exit 2: the verdict is formed from the remaining
+        # scenarios and the crash is named in the replay file.
+        broken.append(f'harness not total on the changed code: {len(infra)} scenario(s) could not be judged, first: '
+                      + infra[0]['infra'].strip().splitlines()[-1][:300])
+        summaries = rest
 
     hashes = set()
     distinct_nontrivial = 0
